@@ -39,6 +39,10 @@ func (i ItemCollection) IRIs() IRIs {
 
 	iris := make(IRIs, 0, len(i))
 	for _, it := range i {
+		if IsNil(it) {
+			// a nil member has no IRI
+			continue
+		}
 		iris = append(iris, it.GetLink())
 	}
 	return iris
@@ -248,10 +252,10 @@ func ToIRIs(it Item) (*IRIs, error) {
 		iris := i.IRIs()
 		return &iris, nil
 	case *ItemCollection:
-		iris := make(IRIs, len(*i))
-		for j, ob := range *i {
-			iris[j] = ob.GetLink()
+		if i == nil {
+			return nil, ErrorInvalidType[IRIs](it)
 		}
+		iris := i.IRIs()
 		return &iris, nil
 	default:
 		return reflectItemToType[IRIs](it)
